@@ -56,6 +56,9 @@ variable (s : St) (c : Cmd) (r : Reply)
 @[simp] theorem tx_backlog : (tx s c).backlog = s.backlog := by unfold tx; split <;> rfl
 @[simp] theorem tx_probes : (tx s c).probes = s.probes := by unfold tx; split <;> rfl
 @[simp] theorem tx_discRaised : (tx s c).discRaised = s.discRaised := by unfold tx; split <;> rfl
+@[simp] theorem tx_surplusHit : (tx s c).surplusHit = s.surplusHit := by unfold tx; split <;> rfl
+@[simp] theorem tx_anyXbad : (tx s c).anyXbad = s.anyXbad := by unfold tx; split <;> rfl
+@[simp] theorem tx_dueErr : (tx s c).dueErr = s.dueErr := by unfold tx; split <;> rfl
 
 @[simp] theorem hear_toDev : (hear s r).toDev = s.toDev := by cases r <;> simp [hear] <;> split <;> rfl
 @[simp] theorem hear_cphase : (hear s r).cphase = s.cphase := by cases r <;> simp [hear] <;> split <;> rfl
@@ -224,7 +227,10 @@ def InFlight (s : St) (c : Cmd) : Prop :=
 /-- every completed `write k` saw the terminal reply to statement k and raised iff that reply was an
     error - or the connection was lost and it raised -/
 def OutOK (s : St) : Prop :=
-  ∀ p ∈ s.outcomes, (Cmd.stmt p.1 ∈ s.heard ∧ (p.2 = true ↔ Cmd.stmt p.1 ∈ s.devBad)) ∨ (s.lost = true ∧ p.2 = true)
+  ∀ p ∈ s.outcomes,
+    (Cmd.stmt p.1 ∈ s.heard ∧ (Cmd.stmt p.1 ∈ s.devBad → p.2 = true)
+      ∧ (p.2 = true → Cmd.stmt p.1 ∈ s.devBad ∨ s.anyXbad = true))
+    ∨ (s.lost = true ∧ p.2 = true)
 
 /-- after a connection loss an acknowledgement can only come together with a stored error -/
 def LostPart (s : St) : Prop :=
@@ -240,11 +246,12 @@ def ConnPhase (s : St) : Prop :=
 
 /-- statement k has been answered and the reader has processed the answer -/
 def Answered (s : St) (k : Nat) : Prop :=
-  s.priq = [] ∧ NoFlight s ∧ Cmd.stmt k ∈ s.heard ∧ (s.err = true ↔ Cmd.stmt k ∈ s.devBad)
+  s.priq = [] ∧ NoFlight s ∧ Cmd.stmt k ∈ s.heard ∧ (Cmd.stmt k ∈ s.devBad → s.err = true)
+  ∧ (s.err = true → Cmd.stmt k ∈ s.devBad ∨ s.anyXbad = true)
 
 /-- statement k is queued / on the wire / answered but the answer not yet read -/
 def Unanswered (s : St) (k : Nat) : Prop :=
-  s.ack = false ∧ s.err = false ∧
+  s.ack = false ∧ (s.err = true → s.anyXbad = true) ∧
   ( (s.priq = [.stmt k] ∧ NoFlight s ∧ Cmd.stmt k ∉ s.devBad)
   ∨ (s.priq = [] ∧ s.toDev = [.stmt k] ∧ termOf s.toHost = [] ∧ Cmd.stmt k ∉ s.devBad)
   ∨ (s.priq = [] ∧ s.toDev = [] ∧ termOf s.toHost = [.ok (.stmt k)] ∧ Cmd.stmt k ∉ s.devBad)
@@ -252,9 +259,10 @@ def Unanswered (s : St) (k : Nat) : Prop :=
 
 def WritePhase (s : St) : Prop :=
   s.printing = false ∧ s.clear = true ∧ s.online = true ∧
-  (s.wstate = .idle → s.priq = [] ∧ NoFlight s ∧ s.err = false ∧ ∀ p ∈ s.outcomes, p.1 < s.next) ∧
+  (s.wstate = .idle → s.priq = [] ∧ NoFlight s ∧ (s.err = true → s.anyXbad = true) ∧ ∀ p ∈ s.outcomes, p.1 < s.next) ∧
   (∀ k, s.wstate = .cleared k →
-      s.priq = [] ∧ NoFlight s ∧ s.err = false ∧ s.ack = false ∧ Cmd.stmt k ∉ s.devBad ∧ ∀ p ∈ s.outcomes, p.1 < k) ∧
+      s.priq = [] ∧ NoFlight s ∧ (s.err = true → s.anyXbad = true) ∧ s.ack = false ∧ Cmd.stmt k ∉ s.devBad
+      ∧ ∀ p ∈ s.outcomes, p.1 < k) ∧
   (∀ k, s.wstate = .waiting k → (Unanswered s k ∨ (Answered s k ∧ s.ack = true)) ∧ ∀ p ∈ s.outcomes, p.1 < k) ∧
   (∀ k, s.wstate = .woke k → Answered s k ∧ ∀ p ∈ s.outcomes, p.1 < k)
 
@@ -265,12 +273,14 @@ def Phase (s : St) : Prop :=
 
 def Core (s : St) : Prop := OutOK s ∧ LostPart s ∧ (s.lost = false → Phase s)
 
-/-- The invariant: as long as no command was unanswered when `startprint` ran (`backlog = false`),
-    the acknowledgement bookkeeping is exact. -/
-def SInv (s : St) : Prop := (s.cphase = .waitOnline → s.backlog = false) ∧ (s.backlog = false → Core s)
+/-- The invariant: as long as no command was unanswered when `startprint` ran (`backlog = false`) and no
+    surplus flag-setting line was read at a harmful moment (`surplusHit = false`), the acknowledgement
+    bookkeeping is exact. -/
+def SInv (s : St) : Prop :=
+  (s.cphase = .waitOnline → s.backlog = false) ∧ (s.backlog = false → s.surplusHit = false → Core s)
 
 theorem sinv_init : SInv {} := by
-  refine ⟨fun _ => rfl, fun _ => ⟨?_, ?_, ?_⟩⟩
+  refine ⟨fun _ => rfl, fun _ _ => ⟨?_, ?_, ?_⟩⟩
   · intro p hp; simp at hp
   · intro h; simp at h
   · intro _; refine ⟨fun _ => by simp, fun h => by simp at h, fun h => by simp at h⟩
@@ -282,7 +292,7 @@ theorem termOf_cons_t {r : Reply} {rs : List Reply} (h : r.terminal = true) : te
 
 set_option maxHeartbeats 1000000 in
 theorem core_lListen {s s' : St} (h : Core s) (hs : stepLive s .lListen = some s') : Core s' := by
-  rcases s with ⟨cphase, online, printing, clear, lost, next, wstate, ack, err, priq, toDev, toHost, devLog, heard, devBad, outcomes, backlog, probes, discRaised⟩
+  rcases s with ⟨cphase, online, printing, clear, lost, next, wstate, ack, err, priq, toDev, toHost, devLog, heard, devBad, outcomes, backlog, probes, discRaised, surplusHit, anyXbad, dueErr⟩
   simp only [stepLive] at hs
   split at hs
   · simp at hs
@@ -318,7 +328,7 @@ theorem core_lListen {s s' : St} (h : Core s) (hs : stepLive s .lListen = some s
         cases cphase <;> cases wstate <;> simp_all
 
 theorem core_xLoss {s s' : St} (h : Core s) (hs : stepLive s .xLoss = some s') : Core s' := by
-  rcases s with ⟨cphase, online, printing, clear, lost, next, wstate, ack, err, priq, toDev, toHost, devLog, heard, devBad, outcomes, backlog, probes, discRaised⟩
+  rcases s with ⟨cphase, online, printing, clear, lost, next, wstate, ack, err, priq, toDev, toHost, devLog, heard, devBad, outcomes, backlog, probes, discRaised, surplusHit, anyXbad, dueErr⟩
   simp only [stepLive] at hs
   split at hs
   · simp at hs
@@ -332,7 +342,7 @@ theorem core_xLoss {s s' : St} (h : Core s) (hs : stepLive s .xLoss = some s') :
 macro "inv_simp" : tactic => `(tactic| simp only [Core, OutOK, LostPart, Phase, ConnPhase, WritePhase, NoFlight, InFlight, Unanswered, Answered, halted, tx, pending] at *)
 
 theorem core_lProbe {s s' : St} (h : Core s) (hs : stepLive s .lProbe = some s') : Core s' := by
-  rcases s with ⟨cphase, online, printing, clear, lost, next, wstate, ack, err, priq, toDev, toHost, devLog, heard, devBad, outcomes, backlog, probes, discRaised⟩
+  rcases s with ⟨cphase, online, printing, clear, lost, next, wstate, ack, err, priq, toDev, toHost, devLog, heard, devBad, outcomes, backlog, probes, discRaised, surplusHit, anyXbad, dueErr⟩
   simp only [stepLive] at hs
   split at hs
   · simp at hs; subst hs
@@ -341,7 +351,7 @@ theorem core_lProbe {s s' : St} (h : Core s) (hs : stepLive s .lProbe = some s')
   · simp at hs
 
 theorem core_cPoll {s s' : St} (h : Core s) (hs : stepLive s .cPoll = some s') : Core s' := by
-  rcases s with ⟨cphase, online, printing, clear, lost, next, wstate, ack, err, priq, toDev, toHost, devLog, heard, devBad, outcomes, backlog, probes, discRaised⟩
+  rcases s with ⟨cphase, online, printing, clear, lost, next, wstate, ack, err, priq, toDev, toHost, devLog, heard, devBad, outcomes, backlog, probes, discRaised, surplusHit, anyXbad, dueErr⟩
   simp only [stepLive] at hs
   split at hs
   · split at hs
@@ -356,7 +366,7 @@ theorem core_cPoll {s s' : St} (h : Core s) (hs : stepLive s .cPoll = some s') :
   · simp at hs
 
 theorem core_cDisc {s s' : St} (h : Core s) (hs : stepLive s .cDisc = some s') : Core s' := by
-  rcases s with ⟨cphase, online, printing, clear, lost, next, wstate, ack, err, priq, toDev, toHost, devLog, heard, devBad, outcomes, backlog, probes, discRaised⟩
+  rcases s with ⟨cphase, online, printing, clear, lost, next, wstate, ack, err, priq, toDev, toHost, devLog, heard, devBad, outcomes, backlog, probes, discRaised, surplusHit, anyXbad, dueErr⟩
   simp only [stepLive] at hs
   split at hs
   · split at hs
@@ -371,7 +381,7 @@ theorem core_cDisc {s s' : St} (h : Core s) (hs : stepLive s .cDisc = some s') :
   · simp at hs
 
 theorem core_wWake {s s' : St} (h : Core s) (hs : stepLive s .wWake = some s') : Core s' := by
-  rcases s with ⟨cphase, online, printing, clear, lost, next, wstate, ack, err, priq, toDev, toHost, devLog, heard, devBad, outcomes, backlog, probes, discRaised⟩
+  rcases s with ⟨cphase, online, printing, clear, lost, next, wstate, ack, err, priq, toDev, toHost, devLog, heard, devBad, outcomes, backlog, probes, discRaised, surplusHit, anyXbad, dueErr⟩
   simp only [stepLive] at hs
   split at hs
   · split at hs
@@ -382,7 +392,7 @@ theorem core_wWake {s s' : St} (h : Core s) (hs : stepLive s .wWake = some s') :
   · simp at hs
 
 theorem core_sSend {s s' : St} (h : Core s) (hs : stepLive s .sSend = some s') : Core s' := by
-  rcases s with ⟨cphase, online, printing, clear, lost, next, wstate, ack, err, priq, toDev, toHost, devLog, heard, devBad, outcomes, backlog, probes, discRaised⟩
+  rcases s with ⟨cphase, online, printing, clear, lost, next, wstate, ack, err, priq, toDev, toHost, devLog, heard, devBad, outcomes, backlog, probes, discRaised, surplusHit, anyXbad, dueErr⟩
   simp only [stepLive] at hs
   split at hs
   · simp at hs
@@ -395,7 +405,7 @@ theorem core_sSend {s s' : St} (h : Core s) (hs : stepLive s .sSend = some s') :
 
 set_option maxHeartbeats 1000000 in
 theorem core_pSendnext {s s' : St} (h : Core s) (hs : stepLive s .pSendnext = some s') : Core s' := by
-  rcases s with ⟨cphase, online, printing, clear, lost, next, wstate, ack, err, priq, toDev, toHost, devLog, heard, devBad, outcomes, backlog, probes, discRaised⟩
+  rcases s with ⟨cphase, online, printing, clear, lost, next, wstate, ack, err, priq, toDev, toHost, devLog, heard, devBad, outcomes, backlog, probes, discRaised, surplusHit, anyXbad, dueErr⟩
   simp only [stepLive] at hs
   split at hs
   · rename_i hg
@@ -418,7 +428,7 @@ theorem core_pSendnext {s s' : St} (h : Core s) (hs : stepLive s .pSendnext = so
 
 /-- a command was unanswered when `startprint` ran -/
 theorem core_cOnline {s s' : St} (h : Core s) (hs : stepLive s .cOnline = some s') (hb : s'.backlog = false) : Core s' := by
-  rcases s with ⟨cphase, online, printing, clear, lost, next, wstate, ack, err, priq, toDev, toHost, devLog, heard, devBad, outcomes, backlog, probes, discRaised⟩
+  rcases s with ⟨cphase, online, printing, clear, lost, next, wstate, ack, err, priq, toDev, toHost, devLog, heard, devBad, outcomes, backlog, probes, discRaised, surplusHit, anyXbad, dueErr⟩
   simp only [stepLive] at hs
   split at hs
   · rename_i hg
@@ -442,7 +452,7 @@ theorem core_wClear {s s' : St} (ho : OrderInv s) (h : Core s) (hs : stepLive s 
       rw [mem_stmtIds]; simp [h1]
     rw [ho.ids] at h2
     simp at h2
-  rcases s with ⟨cphase, online, printing, clear, lost, next, wstate, ack, err, priq, toDev, toHost, devLog, heard, devBad, outcomes, backlog, probes, discRaised⟩
+  rcases s with ⟨cphase, online, printing, clear, lost, next, wstate, ack, err, priq, toDev, toHost, devLog, heard, devBad, outcomes, backlog, probes, discRaised, surplusHit, anyXbad, dueErr⟩
   simp only [stepLive] at hs
   split at hs
   · rename_i hg
@@ -455,7 +465,7 @@ theorem core_wClear {s s' : St} (ho : OrderInv s) (h : Core s) (hs : stepLive s 
 
 theorem core_wEnq {s s' : St} (ho : OrderInv s) (h : Core s) (hs : stepLive s .wEnq = some s') : Core s' := by
   have hcur := ho.cur.1
-  rcases s with ⟨cphase, online, printing, clear, lost, next, wstate, ack, err, priq, toDev, toHost, devLog, heard, devBad, outcomes, backlog, probes, discRaised⟩
+  rcases s with ⟨cphase, online, printing, clear, lost, next, wstate, ack, err, priq, toDev, toHost, devLog, heard, devBad, outcomes, backlog, probes, discRaised, surplusHit, anyXbad, dueErr⟩
   simp only [stepLive] at hs
   split at hs
   · rename_i xw k
@@ -468,7 +478,7 @@ theorem core_wEnq {s s' : St} (ho : OrderInv s) (h : Core s) (hs : stepLive s .w
 
 theorem core_wFinish {s s' : St} (ho : OrderInv s) (h : Core s) (hh : halted s = false) (hs : stepLive s .wFinish = some s') : Core s' := by
   have hcur := ho.cur.2.2
-  rcases s with ⟨cphase, online, printing, clear, lost, next, wstate, ack, err, priq, toDev, toHost, devLog, heard, devBad, outcomes, backlog, probes, discRaised⟩
+  rcases s with ⟨cphase, online, printing, clear, lost, next, wstate, ack, err, priq, toDev, toHost, devLog, heard, devBad, outcomes, backlog, probes, discRaised, surplusHit, anyXbad, dueErr⟩
   simp only [stepLive] at hs
   split at hs
   · rename_i xw k
@@ -483,7 +493,7 @@ theorem core_wFinish {s s' : St} (ho : OrderInv s) (h : Core s) (hh : halted s =
 set_option maxHeartbeats 1000000 in
 theorem core_dProcess {s s' : St} (pre : List Bool) (isErr : Bool) (h : Core s) (hh : halted s = false)
     (hs : stepLive s (.dProcess pre isErr) = some s') : Core s' := by
-  rcases s with ⟨cphase, online, printing, clear, lost, next, wstate, ack, err, priq, toDev, toHost, devLog, heard, devBad, outcomes, backlog, probes, discRaised⟩
+  rcases s with ⟨cphase, online, printing, clear, lost, next, wstate, ack, err, priq, toDev, toHost, devLog, heard, devBad, outcomes, backlog, probes, discRaised, surplusHit, anyXbad, dueErr⟩
   simp only [stepLive] at hs
   split at hs
   · simp at hs
@@ -567,7 +577,7 @@ def WireInv (s : St) : Prop :=
 theorem wireInv_init : WireInv {} := by simp [WireInv]
 
 theorem wireInv_stepLive {s s' : St} (a : Act) (h : WireInv s) (hs : stepLive s a = some s') : WireInv s' := by
-  rcases s with ⟨cphase, online, printing, clear, lost, next, wstate, ack, err, priq, toDev, toHost, devLog, heard, devBad, outcomes, backlog, probes, discRaised⟩
+  rcases s with ⟨cphase, online, printing, clear, lost, next, wstate, ack, err, priq, toDev, toHost, devLog, heard, devBad, outcomes, backlog, probes, discRaised, surplusHit, anyXbad, dueErr⟩
   cases a with
   | lListen =>
     simp only [stepLive] at hs
@@ -621,7 +631,7 @@ theorem not_temp_pre {pre : List Bool} (h : pre.contains true = false) : Reply.t
 
 set_option maxHeartbeats 1000000 in
 theorem jInv_stepLive {s s' : St} (a : Act) (hn : a.noTemp = true) (h : JInv s) (hs : stepLive s a = some s') : JInv s' := by
-  rcases s with ⟨cphase, online, printing, clear, lost, next, wstate, ack, err, priq, toDev, toHost, devLog, heard, devBad, outcomes, backlog, probes, discRaised⟩
+  rcases s with ⟨cphase, online, printing, clear, lost, next, wstate, ack, err, priq, toDev, toHost, devLog, heard, devBad, outcomes, backlog, probes, discRaised, surplusHit, anyXbad, dueErr⟩
   cases a with
   | lListen =>
     simp only [stepLive] at hs
@@ -695,7 +705,7 @@ theorem dInv_step {s s' : St} (a : Act) (hs : step s a = some s') : DInv s' := b
   · simp at hs
   · rename_i hh
     simp only [halted, Bool.or_eq_true, beq_iff_eq, not_or] at hh
-    rcases s with ⟨cphase, online, printing, clear, lost, next, wstate, ack, err, priq, toDev, toHost, devLog, heard, devBad, outcomes, backlog, probes, discRaised⟩
+    rcases s with ⟨cphase, online, printing, clear, lost, next, wstate, ack, err, priq, toDev, toHost, devLog, heard, devBad, outcomes, backlog, probes, discRaised, surplusHit, anyXbad, dueErr⟩
     cases a with
     | lListen =>
       simp only [stepLive] at hs
